@@ -1,6 +1,6 @@
 """Building blocks for checks that need the analyser: a design root with the bundled `std` library parsed and analysed by the
 real code (once per process), graph-preserving copies of it per path, adding user files, running the real DesignRoot::analyze."""
-import os, time
+import os, time, zlib
 from ..util import Panic, Unsupported
 from ..values import *
 from ..interp import Ctx, Violation
@@ -83,7 +83,7 @@ class AnalysisKit:
     def new_source(self, ctx, name):
         src, _ = self.ll.make_source(ctx, [])
         self.nsrc += 1
-        src.fields[0].fields[self.ll.fidx('UniqueSource', 'file_id')] = Agg('FileId', [Agg('FilePath', [py_str(name)]), BV(1000 + self.nsrc, 64)])
+        src.fields[0].fields[self.ll.fidx('UniqueSource', 'file_id')] = Agg('FileId', [Agg('FilePath', [py_str(name)]), BV(zlib.crc32(name.encode()), 64)])   # FileId equality is (hash, name)
         return src
 
     def parse(self, ctx, src, chars, parser=None):
@@ -118,3 +118,158 @@ class AnalysisKit:
         msg = d.fields[ll.fidx('Diagnostic', 'message')]
         msg = bytes(b.e for b in msg.b).decode('latin-1') if isinstance(msg, StrV) and all(b.conc() for b in msg.b) else '<symbolic>'
         return (fn, tuple(x.e if x.conc() else None for p in r.fields for x in p.fields), msg, d.fields[ll.fidx('Diagnostic', 'code')].variant)
+
+
+# ------------------------------------------------------------------------------------------------ whole projects
+class Proj:
+    """a vhdl_lang::Project living in the interpreter: real update_source / analyse / queries"""
+
+    def __init__(self, kit, ctx, agg, parser):
+        self.kit, self.agg, self.parser = kit, agg, parser
+        self.sources = {}            # file name -> Source
+        self.statics = None
+
+    def _files(self): return self.agg.fields[self.kit.ll.fidx('Project', 'files')]
+
+    def clone(self, ctx):
+        """an independent copy (project, sources, statics) for runs that are not isolated in their own process"""
+        memo = {}
+        agg = clone_graph(self.agg, memo)
+        pr = Proj(self.kit, ctx, agg, agg.fields[self.kit.ll.fidx('Project', 'parser')])
+        pr.sources = {k: clone_graph(v, memo) for k, v in self.sources.items()}
+        ctx.statics = clone_graph(self.statics, memo)
+        return pr
+
+    def set_text(self, ctx, name, chars):
+        """Source::change(None, text) on the file's source (created on first use)"""
+        kit = self.kit
+        b = []
+        from ..models import utf8_encode
+        for c in chars: b.extend(utf8_encode(ctx, c))
+        if name not in self.sources:
+            self.sources[name] = kit.new_source(ctx, name)
+            cont = kit.I.call(ctx, L, 'Contents::from_str', [ValRef(StrV(b))])
+            self.sources[name].fields[0].fields[kit.ll.fidx('UniqueSource', 'contents')] = Agg('CellLike', [cont])
+        else:
+            kit.I.call(ctx, L, 'Source::change', [ValRef(self.sources[name]), NONE(), ValRef(StrV(b))])
+        return self.sources[name]
+
+    def map_file(self, ctx, name, lib):
+        """what Project::from_config does for a file of the configuration: a SourceFile entry with its library name"""
+        kit = self.kit
+        src = self.sources[name]
+        libs = HSet(); libs.items.append(kit.intern(ctx, lib, self.parser.fields[0]))
+        sf = Agg('SourceFile', [None] * 4); S = kit.ll.S['SourceFile']
+        sf.fields[S.index('library_names')] = libs; sf.fields[S.index('source')] = src
+        sf.fields[S.index('design_file')] = kit.I.call(ctx, L, '<DesignFile as Default>::default', [])
+        sf.fields[S.index('parser_diagnostics')] = VecV([])
+        fp = src.fields[0].fields[kit.ll.fidx('UniqueSource', 'file_id')].fields[0]
+        f = self._files(); f.keys.append(fp); f.vals.append(sf)
+
+    def update(self, ctx, name):
+        self.kit.I.call(ctx, L, 'Project::update_source', [ValRef(self.agg), ValRef(self.sources[name])])
+
+    def analyse(self, ctx):
+        return seq_items(self.kit.I.call(ctx, L, 'Project::analyse', [ValRef(self.agg)]))
+
+    def references(self, ctx, name):
+        """[(range of the reference, declaration position of the entity or None, entity)]"""
+        kit = self.kit
+        out = []
+        for t in seq_items(kit.I.call(ctx, L, 'Project::find_all_entity_references', [ValRef(self.agg), ValRef(self.sources[name])])):
+            pos, ent = t.fields
+            out.append((kit.range_tuple(pos.fields[kit.ll.fidx('SrcPos', 'range')]), kit.ent_decl(ent), ent))
+        return out
+
+
+class ProjectKit(AnalysisKit):
+    def __init__(self, chk, libs=('lib0', 'lib1', 'lib2'), third_party=(), log=print):
+        super().__init__(chk, log)
+        ll, I = self.ll, self.I
+        ctx = Ctx(); ctx.step_limit = 10 ** 9; ctx.statics = self.base[1]
+        FC = ll.S['Config']; cfg = Agg('Config', [None] * len(FC))
+        cfg.fields[FC.index('libraries')] = HMap(); cfg.fields[FC.index('standard')] = I.enum_value(L, 'VHDLStandard', 'VHDL2008')
+        cfg.fields[FC.index('preferred_case')] = NONE()
+        for lib in libs:
+            cfg.fields[FC.index('libraries')].keys.append(py_str(lib))
+            cfg.fields[FC.index('libraries')].vals.append(Agg('LibraryConfig', [py_str(lib), VecV([]), VecV([]), BV(1 if lib in third_party else 0, 8)]))
+        F = ll.S['Project']; proj = Agg('Project', [None] * len(F))
+        proj.fields[F.index('parser')] = self.parser; proj.fields[F.index('config')] = cfg; proj.fields[F.index('root')] = self.base[0]
+        proj.fields[F.index('files')] = HMap(); proj.fields[F.index('empty_libraries')] = HSet()
+        proj.fields[F.index('lint')] = I.call(ctx, L, '<Linters as Default>::default', [])
+        I.call(ctx, L, 'Project::enable_all_linters', [ValRef(proj)])
+        self.base_project = proj
+
+    def new_project(self, ctx, copy=True):
+        """a project with std loaded and analysed; copy=False hands out the shared base (only for isolated, single-project paths)"""
+        if copy:
+            memo = {}
+            proj = clone_graph(self.base_project, memo)
+            ctx.statics = clone_graph(self.base[1], memo)
+        else:
+            proj = self.base_project; ctx.statics = self.base[1]
+        return Proj(self, ctx, proj, proj.fields[self.ll.fidx('Project', 'parser')])
+
+    # -- observations
+    def range_tuple(self, r): return tuple(x for p in r.fields for x in p.fields)
+
+    def pos_tuple(self, pos):
+        ll = self.ll
+        us = pos.fields[ll.fidx('SrcPos', 'source')].fields[0]
+        fn = bytes(b.e for b in us.fields[ll.fidx('UniqueSource', 'file_id')].fields[0].fields[0].b).decode()
+        return (fn,) + self.range_tuple(pos.fields[ll.fidx('SrcPos', 'range')])
+
+    def ent_decl(self, ent):
+        e = deref(ent)
+        dp = e.fields[self.ll.fidx('AnyEnt', 'decl_pos')]
+        return None if dp.variant == 'None' else self.pos_tuple(dp.fields[0])
+
+    def diag_obs(self, d):
+        ll = self.ll
+        m = d.fields[ll.fidx('Diagnostic', 'message')]
+        if not isinstance(m, StrV): raise Unsupported(f'diagnostic message not modelled: {m!r} code={d.fields[ll.fidx("Diagnostic", "code")].variant} at {obs_show(self.pos_tuple(d.fields[ll.fidx("Diagnostic", "pos")]))}')
+        msg = tuple(m.b)
+        rel = tuple((self.pos_tuple(r.fields[0]), tuple(r.fields[1].b)) for r in seq_items(d.fields[ll.fidx('Diagnostic', 'related')]))
+        return (self.pos_tuple(d.fields[ll.fidx('Diagnostic', 'pos')]), d.fields[ll.fidx('Diagnostic', 'code')].variant, msg, rel)
+
+
+def obs_key(o):
+    """sort key using only the concrete parts of an observation"""
+    if isinstance(o, BV): return (0, o.e) if o.conc() else (1, 0)
+    if isinstance(o, tuple): return (2, tuple(obs_key(x) for x in o))
+    if o is None: return (3, 0)
+    return (4, o)
+
+
+def obs_diff(ctx, a, b):
+    """None if the two observations are equal for every value of the symbolic inputs on this path, else a description"""
+    conds = []
+    def walk(x, y, path):
+        if isinstance(x, BV) and isinstance(y, BV):
+            if x.conc() and y.conc():
+                return None if x.e == y.e else f'{path}: {x.e} != {y.e}'
+            conds.append(bv_eq(x, y)); return None
+        if isinstance(x, tuple) and isinstance(y, tuple):
+            if len(x) != len(y): return f'{path}: {len(x)} != {len(y)} elements'
+            for i, (p, q) in enumerate(zip(x, y)):
+                r = walk(p, q, f'{path}.{i}')
+                if r: return r
+            return None
+        if isinstance(x, (BV, tuple)) or isinstance(y, (BV, tuple)): return f'{path}: shapes differ'
+        return None if x == y else f'{path}: {x!r} != {y!r}'
+    r = walk(a, b, '')
+    if r: return r
+    if conds:
+        c = conds[0]
+        for d in conds[1:]: c = b_and(c, d)
+        ctx.obligations += 1
+        if ctx.feasible(b_not(c)): return 'symbolic parts differ'
+    return None
+
+
+def obs_show(o):
+    if isinstance(o, BV): return o.e if o.conc() else '?'
+    if isinstance(o, tuple):
+        if o and all(isinstance(x, BV) for x in o) and len(o) > 4: return ''.join(chr(x.e) if x.conc() else '?' for x in o)
+        return tuple(obs_show(x) for x in o)
+    return o
